@@ -96,9 +96,9 @@ pub fn first_line(s: &str) -> String {
 // C06 keep-sorted
 // ---------------------------------------------------------------------------------------------
 
-const C06_BASE: &[&str] = &["b", "a", "b ", "  a", "ab", "", "2", "10", "9.5", "-3", "2.0", "k=2 x", "k=10 y", "zz", "B", "   "];
+const C06_BASE: &[&str] = &["b", "a", "b ", "  a", "ab", "", "2", "10", "9.5", "-3", "2.0", "k=2 x", "k=10 y", "zz", "B", "   ", "z=1 q"];
 const C06_EXT: &[&str] = &[
-    "b", "a", "", "é", "z", "Z", "a b", "0", "-0", "1e1", "+2", "k=2", "  k=3 k=1", "k=02 z", "10", "9", "\tb", "a\u{a0}", "aa", "k= 5",
+    "b", "a", "", "é", "z", "Z", "a b", "0", "-0", "1e1", "+2", "k=2", "  k=3 k=1", "k=02 z", "10", "9", "9.5", "\tb", "a\u{a0}", "aa", "k= 5", "\u{3000}",
 ];
 
 const C06_DIRS: &[(&str, bool)] = &[
@@ -109,7 +109,8 @@ const C06_DIRS: &[(&str, bool)] = &[
     ("keep-sorted=\"Desc\"", true),
     ("keep-sorted=\"\"", false),
 ];
-const C06_PATTERNS: &[Option<&str>] = &[None, Some(r"k=(?P<value>\d+)"), Some(r"k=\d+")];
+// The group pattern's whole match (`z=1`) orders differently from its `value` group (`1`).
+const C06_PATTERNS: &[Option<&str>] = &[None, Some(r"[a-z]=(?P<value>\d+)"), Some(r"[a-z]=\d+")];
 
 fn numeric_value(s: &str) -> Option<f64> {
     // Plain decimal numbers only; anything else is left to C13 (malformed rule).
@@ -304,8 +305,8 @@ pub fn replay_c06(_cfg: &Cfg, input: &Value, sink: &Arc<Sink>) {
 // C07 keep-unique
 // ---------------------------------------------------------------------------------------------
 
-const C07_BASE: &[&str] = &["a", "b", "  a", "a ", "", "id=1 x", "id=1 y", "id=2 x", "zz", "y id=2", "   ", "A"];
-const C07_PATTERNS: &[Option<&str>] = &[None, Some(r"id=(?P<value>\d+)"), Some(r"id=\d+"), Some(r"^id=\d+")];
+const C07_BASE: &[&str] = &["a", "b", "  a", "a ", "", "id=1 x", "id=1 y", "id=2 x", "zz", "y id=2", "   ", "A", "\u{2003}a\u{a0}", "\u{3000}"];
+const C07_PATTERNS: &[Option<&str>] = &[None, Some(r"id=(?P<value>\d+)"), Some(r"id=\d+"), Some(r"^id=\d+"), Some(r"id=(?P<value>\d+) \w")];
 
 fn first_duplicate(keys: &[Key]) -> Option<usize> {
     for i in 0..keys.len() {
@@ -333,7 +334,7 @@ fn c07_check(lines: &[String], sink: &Sink) {
         let tag_line = batch.blocks[idx].tag_line;
         nontrivial |= ks.len() >= 2;
         expected.push(first_duplicate(&ks).map(|i| (tag_line + 1 + ks[i].line_idx, ks[i].col_start, ks[i].col_end)));
-        labels.push(match pat { None => "none", Some(p) if p.contains("value") => "group", Some(p) if p.starts_with('^') => "anchored", _ => "plain" });
+        labels.push(match pat { None => "none", Some(p) if p.ends_with("\\w") => "group-inside-longer-match", Some(p) if p.contains("value") => "group", Some(p) if p.starts_with('^') => "anchored", _ => "plain" });
     }
     // Also the empty-attribute spelling.
     let idx = batch.block("keep-unique=\"\"", lines);
@@ -406,7 +407,7 @@ pub fn replay_c07(_cfg: &Cfg, input: &Value, sink: &Arc<Sink>) {
 // C08 line-pattern
 // ---------------------------------------------------------------------------------------------
 
-const C08_BASE: &[&str] = &["abc", "ab1", "  abc", "abc  ", "", "   ", "x1y", "1", "xy", "yx", "  x  ", "é"];
+const C08_BASE: &[&str] = &["abc", "ab1", "  abc", "abc  ", "", "   ", "x1y", "1", "xy", "yx", "  x  ", "é", "\u{3000}", "\u{2003}abc\u{a0}"];
 const C08_PATTERNS: &[&str] = &["^[a-z]+$", "[0-9]", "^x", "y$", r"^\S+$"];
 
 fn c08_check(lines: &[String], sink: &Sink) {
@@ -482,7 +483,7 @@ pub fn replay_c08(_cfg: &Cfg, input: &Value, sink: &Arc<Sink>) {
 
 /// Content alphabet (JavaScript host): a statement, a blank line, a whitespace-only line, an
 /// indented statement, a plain comment line, a nested block's start and end tag lines.
-const C09_LINES: &[&str] = &["x;", "", "   ", "  y;", "// note", "// <block name=\"n\">", "// </block>"];
+const C09_LINES: &[&str] = &["x;", "", "   ", "  y;", "// note", "// <block name=\"n\">", "// </block>", "\u{3000}\u{a0}"];
 const C09_OPS: &[(&str, fn(usize, usize) -> bool)] = &[
     ("<", |a, n| a < n),
     ("<=", |a, n| a <= n),
